@@ -341,7 +341,7 @@ def bounded(tier, seed):
                 if f:
                     return n, f, {'lines': [l.decode('latin-1') for l in lines], 'unix': unix}
     rnd = random.Random(seed)
-    for _ in range(300 if tier == 'thorough' else 60):
+    for _ in range(3000 if tier == 'thorough' else 60):
         lines = [rnd.choice(SERVER_LINES) for _ in range(rnd.randrange(4, 10))]
         unix = rnd.random() < 0.5
         n += 1
